@@ -74,3 +74,11 @@ Print Assumptions C14_focus_prefix.
 Theorem C14_focus_prefix_fails : forall g pre n q e, focus_from g pre n q = Err e <-> get g n q = Err e.
 Proof. exact focus_from_fails. Qed.
 Print Assumptions C14_focus_prefix_fails.
+
+(* traversal.WalkLocal: every reported (path, node) resolves segment by segment to that node (maps with unique keys;
+   a map key is ONE path segment whatever bytes it contains) *)
+Theorem C14_walk_local_paths : forall root,
+  keys_ok root = true ->
+  Forall (fun pv => get_local root (fst pv) = Ok (snd pv)) (walk_local_all root).
+Proof. exact walk_local_paths. Qed.
+Print Assumptions C14_walk_local_paths.
